@@ -180,6 +180,11 @@ fn primitive_case(rng: &mut Rng, out: &mut CaseOut) {
         };
         let c1 = hooks::isa_counters();
         out.evals += 1;
+        out.add("masked feature-detection queries observed (hook H2)", hooks::detect_queries() - q0);
+        let dd = delta(c0, c1);
+        for isa in 0..3 {
+            out.add(format!("target_feature entry-point hits: {}", ISAS[isa]), dd[isa].iter().sum());
+        }
         judge_exact(out, mask, prim, delta(c0, c1), &format!("DefaultEngine::{}", PRIMS[prim]));
         digests.push(digest);
         out.tag(format!("mask{}:{}:{}", mask_name(mask), PRIMS[prim], best(mask).map_or("portable", |i| ISAS[i])));
